@@ -119,8 +119,18 @@ def profile_get(rnd, tier):
                               'timeout0', 'timeout1', 'timeout2', 'consumer'])
         if outcome == 'consumer':
             steps.append((c, ('consume', b'ct'), [[(c, F('NConsumeOk', 0, b'ct'))]]))
-            steps.append((c, ('get',), []))
-            steps.append((c, ('cancel', b'ct'), [[(c, F('NCancelOk', 0, b'ct'))]]))
+            two = rnd.random() < 0.5
+            if two:
+                # a second consumer stays active after the first is cancelled:
+                # basic.get must still be refused, its deliveries still arrive
+                steps.append((c, ('consume', b'cu'), [[(c, F('NConsumeOk', 0, b'cu'))]]))
+                steps.append((c, ('cancel', b'ct'), [[(c, F('NCancelOk', 0, b'ct'))]]))
+                steps.append((c, ('get',), [g.delivery(c, b'cu'), [(c, F('NGetEmpty'))]]))
+                steps.append((c, ('process',), []))
+                steps.append((c, ('cancel', b'cu'), [[(c, F('NCancelOk', 0, b'cu'))]]))
+            else:
+                steps.append((c, ('get',), []))
+                steps.append((c, ('cancel', b'ct'), [[(c, F('NCancelOk', 0, b'ct'))]]))
             continue
         g.dtag += 1
         frames = g.content(c, F('NGetOk', g.dtag))
@@ -202,8 +212,9 @@ def profile_consume(rnd, tier):
                 elif k < 0.85:
                     fr += g.returned(c)
                 else:
-                    oc = rnd.randrange(1, nchan + 1)
-                    fr += g.delivery(oc, rnd.choice(tags[oc]) if tags[oc] else b'zz')
+                    # a broker only delivers to consumers it has
+                    oc = rnd.choice([x for x in range(1, nchan + 1) if tags[x]])
+                    fr += g.delivery(oc, rnd.choice(tags[oc]))
             ticks = []
             i = 0
             while i < len(fr):
@@ -223,6 +234,14 @@ def profile_consume(rnd, tier):
         elif r < 0.9:
             steps.append((c, ('stop',), [[(c, F('NCancelOk', 0, t))] for t in tags[c]]))
             tags[c] = []
+        elif r < 0.95:
+            # the reader is ahead of the consumer: several deliveries and a
+            # returned message are routed during one sleep of the consuming call
+            fr = []
+            for k in rnd.choice(['drd', 'ddr', 'rdd', 'dr', 'dddr', 'drdrd']):
+                fr += g.delivery(c, rnd.choice(tags[c])) if k == 'd' else g.returned(c)
+            steps.append((c, (rnd.choice(['process', 'build']),), [fr]))
+            steps.append((c, ('process',), []))
         else:
             # a message whose frames arrive while the consumer is already reading
             fr = g.delivery(c, rnd.choice(tags[c]))
@@ -267,6 +286,7 @@ def profile_errors(rnd, tier):
             steps.append((c, ('check',), []))
         elif r < 0.9:
             steps.append((c, ('close',), [[(c, F('NChCloseOk'))]] if rnd.random() < 0.8 else []))
+            closed.add(c)      # the broker says nothing more on a channel the application closed
         else:
             steps.append((c, ('consume', b'k'), [[(c, F('NConsumeOk', 0, b'k'))]]))
     return nchan, steps
@@ -307,10 +327,13 @@ def profile_faults(rnd, tier):
             op = ('consume', b'ct%d' % i)
             ticks = [[], [(c, F('NConsumeOk', 0, b'ct%d' % i))]]
             tags.append(b'ct%d' % i)
-        elif r < 0.8:
-            op, ticks = ('idle',), [g.delivery(c, b'ct0')]
-        elif r < 0.9:
-            op, ticks = ('build',), [[], g.delivery(c, b'ct0')]
+        elif r < 0.8 and tags:
+            # a broker only delivers to consumers it has (all on channel 1 here)
+            c = 1
+            op, ticks = ('idle',), [g.delivery(c, rnd.choice(tags))]
+        elif r < 0.9 and tags:
+            c = 1
+            op, ticks = ('build',), [[], g.delivery(c, rnd.choice(tags))]
         else:
             op, ticks = ('ack',), []
         if i == at:
